@@ -7,16 +7,16 @@ import (
 	"time"
 )
 
-// VerifPurgeCache empties the process-wide response cache.
+// VerifPurgeCache empties the process-wide response VERIF_VAR_cache.
 func VerifPurgeCache() {
-	if cache != nil {
-		cache.Purge()
+	if VERIF_VAR_cache != nil {
+		VERIF_VAR_cache.Purge()
 	}
 }
 
-func VerifSetTimeout(d time.Duration) { dialer.Timeout = d }
-func VerifTimeout() time.Duration     { return dialer.Timeout }
+func VerifSetTimeout(d time.Duration) { VERIF_VAR_dialer.Timeout = d }
+func VerifTimeout() time.Duration     { return VERIF_VAR_dialer.Timeout }
 
-// VerifSetResolver makes the dialer resolve names through r (Env-A: an in-process DNS
+// VerifSetResolver makes the VERIF_VAR_dialer resolve names through r (Env-A: an in-process DNS
 // responder that answers every name with 127.0.0.1).
-func VerifSetResolver(r *net.Resolver) { dialer.Resolver = r }
+func VerifSetResolver(r *net.Resolver) { VERIF_VAR_dialer.Resolver = r }
